@@ -680,26 +680,42 @@ def findMinMax (os : List Object) (filter : Object → Bool) : M (Int × Int) :=
 
 def isBlock : Object → Bool | .block _ _ => true | _ => false
 
-def addressTypesBigEnough (d : Device) : M Device := do
-  let check (kind : String) (t : Option Integer) (filter : Object → Bool) : M Unit :=
-    match t with
-    | none => pure ()
-    | some ty => do
-      let (mn, mx) ← findMinMax d.objects filter
-      if ¬ (mn ≥ ty.minValue) then throw (passErr s!"addr_too_low_{kind}" [] [mn, ty.minValue])
-      if ¬ (mx ≤ ty.maxValue) then throw (passErr s!"addr_too_high_{kind}" [] [mx, ty.maxValue])
-  check "register" d.config.registerAddressType fun o => isBlock o || match o with
+/-- The three selections of `address_types_big_enough`: blocks are always walked (their offsets
+    count), plus the objects of one kind and the refs to that kind. -/
+def selRegister (o : Object) : Bool := isBlock o || match o with
     | .register _ => true
     | .ref r => (match r.override with | .register _ => true | _ => false)
     | _ => false
-  check "command" d.config.commandAddressType fun o => isBlock o || match o with
+def selCommand (o : Object) : Bool := isBlock o || match o with
     | .command _ => true
     | .ref r => (match r.override with | .command _ => true | _ => false)
     | _ => false
-  check "buffer" d.config.bufferAddressType fun o => isBlock o || match o with
+def selBuffer (o : Object) : Bool := isBlock o || match o with
     | .buffer _ => true
     | _ => false
-  pure d
+
+/-- One of the three checks of the pass (address_types_big_enough.rs:9-76). -/
+def checkAddrKind (os : List Object) (kind : String) (t : Option Integer) (filter : Object → Bool) : M Unit :=
+  match t with
+  | none => .ok ()
+  | some ty =>
+    match findMinMax os filter with
+    | .error e => .error e
+    | .ok (mn, mx) =>
+      if ¬ (mn ≥ ty.minValue) then .error (passErr s!"addr_too_low_{kind}" [] [mn, ty.minValue])
+      else if ¬ (mx ≤ ty.maxValue) then .error (passErr s!"addr_too_high_{kind}" [] [mx, ty.maxValue])
+      else .ok ()
+
+def addressTypesBigEnough (d : Device) : M Device :=
+  match checkAddrKind d.objects "register" d.config.registerAddressType selRegister with
+  | .error e => .error e
+  | .ok _ =>
+    match checkAddrKind d.objects "command" d.config.commandAddressType selCommand with
+    | .error e => .error e
+    | .ok _ =>
+      match checkAddrKind d.objects "buffer" d.config.bufferAddressType selBuffer with
+      | .error e => .error e
+      | .ok _ => .ok d
 
 /-! ### run_passes -/
 
